@@ -13,6 +13,7 @@ import (
 	"bytes"
 	"encoding/json"
 	"fmt"
+	"io"
 	"os"
 	"os/exec"
 	"path/filepath"
@@ -662,7 +663,24 @@ func c09StalledDownload(r *ev.Result, root string) {
 		r.Violate(ev.Violation{Signature: "file-not-reported/stalled-download", Kind: "c09", Replay: c09Case{Config: "file", Target: "/payload (256 MiB file, client stalls after 1 MiB)"},
 			What: fmt.Sprintf("a client received %d bytes of a 256 MiB file and then stopped reading: 30 s later the operator still has not been told about the request", got)})
 	}
-	r.Add(1)
+	/* While that download is stalled, another client asks for the file:
+	it is served and announced like any other. */
+	c2, err := w.Dial("")
+	if nil != err {
+		ev.Broken("%s", err)
+	}
+	defer c2.Close()
+	w.Drain()
+	c2.Send(hworld.Get("/second-request", w.Addr))
+	c2.C.SetReadDeadline(time.Now().Add(hworld.Watchdog))
+	first := make([]byte, 4096)
+	n, rerr := io.ReadFull(c2.R, first)
+	_, told := w.WaitNotice(func(cl opshell.CLine) bool { return strings.Contains(cl.Line, "File requested: /second-request") })
+	if n < len(first) || !told {
+		r.Violate(ev.Violation{Signature: "file-not-served/next-to-a-stalled-download", Kind: "c09", Replay: c09Case{Config: "file", Target: "/second-request (while another client's download of the 256 MiB file is stalled)"},
+			What: fmt.Sprintf("while one client's download is stalled, a second client's request got %d bytes of an answer within 30 s (%v) and was announced to the operator: %v", n, rerr, told)})
+	}
+	r.Add(2)
 }
 
 // c09NoticeBurst: requests arriving faster than the operator's terminal takes
